@@ -754,9 +754,14 @@ int main(int argc, char **argv) {
     std::string tool = verif::replay_field(txt, "tool");
     if (c.threads < 1)
       c.threads = 1;
-    g_keep = true;
     run_job(R, cn, c, tool.empty() ? "valgrind" : tool, 0, true);
-    printf("scratch directory kept: %s/j0\n", g_base.c_str());
+    if (g_keep)
+      printf("run directory kept: %s/j0\n", g_base.c_str());
+    else {
+      printf("(set C12_KEEP=1 to keep the run directory)\n");
+      rm_rf(g_base);
+      verif::remove_fast_tmpdir(tmp);
+    }
     R.evaluations = cn.processes;
     R.nontrivial = cn.runs;
     return R.finish(A);
@@ -847,8 +852,9 @@ int main(int argc, char **argv) {
                           "to the thread count, not enumerated independently)");
   R.assumptions.push_back("valgrind runs use the omp build (-g -fopenmp) for both thread counts so that inlined "
                           "frames carry function names; ASan runs use asan (1 thread) and ompasan (2 threads)");
-  if (!g_keep)
+  if (!g_keep) {
     rm_rf(g_base);
-  verif::remove_fast_tmpdir(tmp);
+    verif::remove_fast_tmpdir(tmp);
+  }
   return R.finish(A);
 }
